@@ -61,8 +61,9 @@ static const char SPEC_B64_TABLE[2][65] = {
  * which is what makes the loop invariants cheap for a SAT solver (no 64-bit division, no window that straddles bytes).
  * Group g is the 24-bit number b0 b1 b2 (bytes behind the end are zero), character c is bits [18-6c, 24-6c) of it.
  * base64_ref_selfcheck PART=3 proves this form equal to SPEC_B64_ENC_CHAR for every q, r, k. */
-#define SPEC_B64_GRP(k) ((size_t)(k) / 4)
-#define SPEC_B64_POS(k) ((size_t)(k) % 4)
+/* k / 4 and k % 4, written as shift and mask (cbmc builds a full divider circuit for / and %) */
+#define SPEC_B64_GRP(k) ((size_t)(k) >> 2)
+#define SPEC_B64_POS(k) ((size_t)(k) & 3)
 #define SPEC_B64Q_ENC_LEN(q, r) (4 * ((size_t)(q) + ((r) != 0)))
 #define SPEC_B64Q_NDATA(q, r) (4 * (size_t)(q) + ((r) != 0 ? (size_t)(r) + 1 : 0))
 #define SPEC_B64Q_IS_DATA_POS(q, r, k)                                                                          \
